@@ -202,6 +202,20 @@ UNKNOWN_ALGS = ['ssh-foo', 'ssh-ed25519x', 'rsa', 'ecdsa-sha2-nistp999',
 B64_JUNK = ['*', '$', '%', '^', '~']
 
 
+_OSCERT: List[Any] = []
+
+
+def _oscert() -> Tuple[str, str]:
+    if not _OSCERT:
+        ca = asyncssh.generate_private_key('ssh-ed25519')
+        subj = asyncssh.generate_private_key('ssh-ed25519')
+        text = ca.generate_user_certificate(subj, 'kid').export_certificate()
+        typ, b64 = text.decode('ascii').split()[:2]
+        _OSCERT.extend([typ, b64])
+
+    return _OSCERT[0], _OSCERT[1]
+
+
 def render_key(idx: int, dmg: Optional[Dict[str, Any]]) \
         -> Tuple[str, Optional[str]]:
     """(key type token, base64 text) of universe key idx, damaged per dmg.
@@ -243,6 +257,11 @@ def render_key(idx: int, dmg: Optional[Dict[str, Any]]) \
 
     if t == 'noblob':
         return typ, None
+
+    if t == 'oscert':
+        # an OpenSSH certificate where a key is expected (authorized_keys
+        # only): not something a login can be matched against
+        return _oscert()
 
     if t == 'imp':
         ityp, iblob = IMPOSSIBLE[dmg['v']]
@@ -1226,6 +1245,12 @@ def ak_parse(text: str, case_insensitive: bool = True,
             if case_insensitive:
                 name = AK_CANON.get(name.lower(), name)
 
+            if name == 'x-mixed':
+                # an unknown name given both as a flag and with a value:
+                # nothing says what it means, only that the line (and the
+                # file) is still read
+                continue
+
             if value is None:
                 exp[name] = True
             elif name == 'command':
@@ -1302,6 +1327,9 @@ def _norm_options(options) -> Dict[str, Any]:
     out: Dict[str, Any] = {}
 
     for name, value in options.items():
+        if name == 'x-mixed':
+            continue
+
         if name in ('from', 'principals'):
             out[name] = len(value)
         elif name == 'permitopen':
@@ -1347,6 +1375,9 @@ def run_ak_reference(case) -> CaseResult:
 
         if len(set(names)) < len(names):
             labels.add('repeated-option')
+
+        if 'x-mixed' in names:
+            labels.add('mixed-flag-and-value')
 
         if names.count('from') > 1:
             labels.add('multi-from')
@@ -1905,12 +1936,22 @@ def ak_line(draw, q, allow_imp, non_ascii, kwcase):
             ['*', q['host'], q['addr'], '10.0.0.0/8', 'nomatch.invalid',
              '*,!' + q['host']]))])
 
+    if draw(I(0, 9)) == 9:
+        pair = [['x-mixed', None], ['x-mixed', draw(_TEXT8)]]
+
+        if draw(I(0, 1)):
+            pair.reverse()
+
+        for o in pair:
+            opts.insert(draw(I(0, len(opts))), o)
+
     # a flag option never looks like a key type; values never end in a
     # backslash by construction of the alphabet
     ln: Dict[str, Any] = {
         'kind': 'key', 'o': opts,
         'k': q['key'] if draw(I(0, 3)) < 3 else draw(I(0, NKEYS - 1)),
-        'd': damage(draw, allow_imp) if draw(I(0, 5)) == 5 else None,
+        'd': ({'t': 'oscert'} if draw(I(0, 3)) == 0
+              else damage(draw, allow_imp)) if draw(I(0, 5)) == 5 else None,
         'lead': draw(S([0, 0, 0, 1, 2])),
         'sp': draw(S([0, 0, 0, 1, 3])),
     }
@@ -1988,6 +2029,7 @@ FAMILIES = [
                              'comma-in-quotes', 'space-in-quotes',
                              'escaped-quote', 'repeated-option',
                              'later-line-wins', 'ca-query', 'user-query',
-                             'damaged', 'keyword-case',
+                             'damaged', 'keyword-case', 'dmg:oscert',
+                             'mixed-flag-and-value',
                              'cidr-host-bits:would-cover-query']}),
 ]
